@@ -120,6 +120,7 @@ class MapGen:
         for name in ("UNIS", "UNIx", "UPRP", "UPUS", "SWNM", "WAV "):
             if self.opts.get("all_sections") or rng.random() < 0.7:
                 present.add(name)
+        present -= set(self.opts.get("without", ()))
         if "UPUS" in present and "UPRP" not in present:
             present.discard("UPUS")
         # locations
